@@ -7,6 +7,7 @@ netaddr.strategy); dialect = built-in class name or D,ws,nw,<hex sep>,pad,U|L (u
 import ipaddress
 
 from common import Case, W, value_classes, rand_value, hexs, plist, tf
+import common
 import platform_cases
 import netaddr
 import netaddr.strategy as S
@@ -310,11 +311,11 @@ def impl(c):
         _, fam, v, sep = a
         kind, ws, nw, _s, width = fam_info(fam)
         if kind in (4, 6):
-            o = netaddr.IPAddress(v, kind)
+            o = common.make_addr(kind, v)
             return ' '.join([_try(lambda: o.words, fwords), _try(lambda: o.packed, fbytes), _try(lambda: bytes(o), fbytes),
                              _try(lambda: o.bits(sep), hexs), _try(lambda: o.bin, hexs),
                              _try(lambda: o.reverse_dns, hexs)])
-        o = netaddr.EUI(v, version=kind, dialect=dialect_obj(kind, fam.split(':')[1]))
+        o = common.make_eui(v, kind, dialect_obj(kind, fam.split(":")[1]))
         return ' '.join([_try(lambda: o.words, fwords), _try(lambda: o.packed, fbytes), '-',
                          _try(lambda: o.bits(sep), hexs), _try(lambda: o.bin, hexs), '-'])
     if a[0] in ('dec', 'valid'):
